@@ -625,6 +625,27 @@ func (api *DatabaseAPI) handleInsert(opID []byte, key string, data []byte) {
 		return
 	}
 
+	// The record may be shared with the storage (in-memory storages hand out the
+	// stored record itself): if one of the values is refused, the values applied
+	// before it must not stay behind in a record that is reported as unchanged.
+	var rollback func()
+	type appliedValue struct {
+		key      string
+		previous interface{}
+	}
+	var applied []appliedValue
+	if wrapper, ok := r.(*record.Wrapper); ok {
+		originalData := make([]byte, len(wrapper.Data))
+		copy(originalData, wrapper.Data)
+		rollback = func() { wrapper.Data = originalData }
+	} else {
+		rollback = func() {
+			for i := len(applied) - 1; i >= 0; i-- {
+				_ = acc.Set(applied[i].key, applied[i].previous)
+			}
+		}
+	}
+
 	result := gjson.ParseBytes(data)
 	anythingPresent := false
 	var insertError error
@@ -642,11 +663,16 @@ func (api *DatabaseAPI) handleInsert(opID []byte, key string, data []byte) {
 			insertError = errors.New("non-existent value")
 			return false
 		}
+		previous, _ := acc.Get(key.String())
 		insertError = acc.Set(key.String(), value.Value())
+		if insertError == nil {
+			applied = append(applied, appliedValue{key.String(), previous})
+		}
 		return insertError == nil
 	})
 
 	if insertError != nil {
+		rollback()
 		api.send(opID, dbMsgTypeError, insertError.Error(), nil)
 		return
 	}
@@ -657,6 +683,7 @@ func (api *DatabaseAPI) handleInsert(opID []byte, key string, data []byte) {
 
 	err = api.db.Put(r)
 	if err != nil {
+		rollback()
 		api.send(opID, dbMsgTypeError, err.Error(), nil)
 		return
 	}
